@@ -11,7 +11,7 @@
                     are concretised by the harness with strconv on the token
      [k |-> "str", v |-> Seq(char)]
      [k |-> "l", a |-> Seq(Value)]
-     [k |-> "o", d |-> [KeyString -> Value]]
+     [k |-> "o", d |-> [KeyString -> Value], kc |-> [KeyString -> Seq(char)]]
 
    Deviations (all repaired by fix: commits, kept to show TLC refutes them)
      "EofPanics"            end of input inside [ ] or { } indexes an empty string
@@ -29,7 +29,7 @@ BoolV(b)   == [k |-> "bool", v |-> b]
 NumV(nk,t) == [k |-> "num", nk |-> nk, v |-> t]
 StrV(s)    == [k |-> "str", v |-> s]
 ListV(a)   == [k |-> "l", a |-> a]
-ObjV(d)    == [k |-> "o", d |-> d]
+ObjV(d, kc) == [k |-> "o", d |-> d, kc |-> kc]   \* kc: the characters of every key
 
 WS == {" ", "\n", "\t", "\r"}
 Digits == {"0", "1", "2", "3", "4", "5", "6", "7", "8", "9"}
@@ -126,12 +126,12 @@ SQuote(in) ==
   IF i = 0 THEN Err("missing_sq") ELSE OkR(SubSeq(in, 2, i-1), SubSeq(in, i+1, Len(in)))
 
 (* ---- values, lists, objects ------------------------------------------------------ *)
-RECURSIVE Value(_,_,_,_), ArrLoop(_,_,_,_), ObjLoop(_,_,_,_)
+RECURSIVE Value(_,_,_,_), ArrLoop(_,_,_,_), ObjLoop(_,_,_,_,_)
 Value(D, c, in0, stop) ==
   LET in == TrimL(in0) IN
   IF in = <<>> THEN OkR(NilV, <<>>)
   ELSE CASE Head(in) = "[" /\ c.arr -> ArrLoop(D, c, Tail(in), <<>>)
-         [] Head(in) = "{" /\ c.obj -> ObjLoop(D, c, Tail(in), <<>>)
+         [] Head(in) = "{" /\ c.obj -> ObjLoop(D, c, Tail(in), <<>>, <<>>)
          [] Head(in) = DQ /\ c.dq  -> (LET r == DQuote(D, in) IN IF IsErr(r) THEN r ELSE OkR(StrV(r.v), r.rest))
          [] Head(in) = SQ /\ c.sq  -> (LET r == SQuote(in) IN IF IsErr(r) THEN r ELSE OkR(StrV(r.v), r.rest))
          [] OTHER -> Primitive(in, stop)
@@ -153,10 +153,10 @@ Key(D, in) ==
     [] Head(in) = SQ -> SQuote(in)
     [] OTHER -> NonQuoted(in, {":"})
 
-ObjLoop(D, c, in0, kvs) ==
+ObjLoop(D, c, in0, kvs, kcs) ==
   LET in == TrimL(in0) IN
   IF in = <<>> THEN (IF "EofPanics" \in D THEN Err("panic") ELSE Err("obj_eof"))
-  ELSE IF Head(in) = "}" THEN OkR(IF DOMAIN kvs = {} THEN NilV ELSE ObjV(kvs), Tail(in))
+  ELSE IF Head(in) = "}" THEN OkR(IF DOMAIN kvs = {} THEN NilV ELSE ObjV(kvs, kcs), Tail(in))
   ELSE LET key == Key(D, in) IN
        IF IsErr(key) THEN key
        ELSE LET r1 == TrimL(key.rest) IN
@@ -165,10 +165,11 @@ ObjLoop(D, c, in0, kvs) ==
                  IF IsErr(r) THEN r
                  ELSE LET rest == IF "ObjNoTrimAfterValue" \in D THEN r.rest ELSE TrimL(r.rest)
                           ks   == Join(key.v)
-                          n    == [x \in DOMAIN kvs \cup {ks} |-> IF x = ks THEN r.v ELSE kvs[x]] IN
+                          n    == [x \in DOMAIN kvs \cup {ks} |-> IF x = ks THEN r.v ELSE kvs[x]]
+                          nc   == [x \in DOMAIN kcs \cup {ks} |-> IF x = ks THEN key.v ELSE kcs[x]] IN
                       IF rest = <<>> THEN Err("obj_expected")
-                      ELSE IF Head(rest) = "}" THEN OkR(ObjV(n), Tail(rest))
-                      ELSE IF Head(rest) = "," THEN ObjLoop(D, c, Tail(rest), n)
+                      ELSE IF Head(rest) = "}" THEN OkR(ObjV(n, nc), Tail(rest))
+                      ELSE IF Head(rest) = "," THEN ObjLoop(D, c, Tail(rest), n, nc)
                       ELSE Err("obj_expected")
 
 RECURSIVE TopLoop(_,_,_,_)
@@ -232,5 +233,7 @@ Denotes(v) ==
     [] v.j = "arr"  -> IF v.xs = <<>> THEN NilV ELSE ListV([i \in 1..Len(v.xs) |-> Denotes(v.xs[i])])
     [] v.j = "obj"  -> IF v.es = <<>> THEN NilV
                        ELSE ObjV([key \in {Join(v.es[i][1]) : i \in 1..Len(v.es)} |->
-                                    Denotes(v.es[CHOOSE i \in 1..Len(v.es) : Join(v.es[i][1]) = key][2])])
+                                    Denotes(v.es[CHOOSE i \in 1..Len(v.es) : Join(v.es[i][1]) = key][2])],
+                                 [key \in {Join(v.es[i][1]) : i \in 1..Len(v.es)} |->
+                                    v.es[CHOOSE i \in 1..Len(v.es) : Join(v.es[i][1]) = key][1]])
 ==========================================================================
